@@ -384,6 +384,10 @@ def check_heap_scheduler(src: Source, rep: Report, unit: CUnit) -> None:
         ent = _lib_calls(gs, aliases, "entry")
         wl = [n for n in ast.walk(gs) if isinstance(n, ast.While)]
         unconditional = bool(wl) and bool(appends) and any(isinstance(st, ast.Expr) and any(x is appends[0] for x in ast.walk(st)) for st in wl[0].body)
+        if wl:
+            skips = [n for n in ast.walk(wl[0]) if isinstance(n, ast.Continue)]
+            other_ifs = [st for st in wl[0].body if isinstance(st, ast.If) and not (any(isinstance(x, ast.Break) for x in st.body) and "NULL" in norm(st.test))]
+            unconditional = unconditional and not skips and not other_ifs
         rep.ob("R6.6-dump-every-entry", unconditional, Loc(HEAP_PY, gs.lineno, f"{cls.name}.__getstate__"),
                "heap_entries.append(...) unconditionally for every entry returned by the heap",
                "every entry still stored in the C heap must be pickled (also trashed ones and ones tied with the last returned time): "
@@ -622,6 +626,10 @@ MUTANTS = [
 MUTANTS.append(Edit("pickle skips entries not later than the last returned event", HEAP_PY,
                     "            index += 1\n            heap_entries.append(",
                     "            index += 1\n            if Time(entry.time_quotient, entry.time_remainder) > self._last_returned_event[0]:\n                heap_entries.append(",
+                    "R6.6"))
+MUTANTS.append(Edit("pickle skips passed entries with continue", HEAP_PY,
+                    "            index += 1\n            heap_entries.append(",
+                    "            index += 1\n            if Time(entry.time_quotient, entry.time_remainder) <= self._last_returned_event[0]:\n                continue\n            heap_entries.append(",
                     "R6.6"))
 MUTANTS.append(Edit("delete_events: moved-in entry not re-examined", HEAP_C,
                     "            heap->heap_entries[current_index] = heap->heap_entries[--(heap->length)];\n            continue;\n",
